@@ -8,7 +8,7 @@
  *   - a reported failure (NULL, -1, callback with an error status, events_run() == -1) needs a refused request
  *   - no sanitizer report / abort; the data that does get through is the right data (BAD=... otherwise)
  *   - after `end` (objects released with their normal calls, exit handlers run) no library block is live
- *  (2) start / registration / teardown calls one at a time (`nr_start nr_cancel nw_* na_* nc_* nbr_* nbw_* hq_*`,
+ *  (2) start / registration / teardown calls one at a time (`nr_start nr_cancel nw_* na_* nc_* nbr_* nbw_* hq_* hqs_start`,
  *      component `upstart`): no event-loop pass in between, so they are deterministic and are compared in
  *      lock-step with lean/Percival/Model/AllocFail.lean (`pmodel upmodel`).  L2 = number of live library
  *      blocks, the sizes of the requests made during the op in order (hence their number), which descriptors
@@ -16,6 +16,17 @@
  *      four object pools.  Same L1 rules.
  * hwrap.h counts and fails only allocations made inside library calls.  The event layer and
  * network_read.c / network_write.c are included white-box (registration tables, pools).
+ *
+ * -DHC_BLACKBOX (used when the white-box build no longer compiles, e.g. after a private member or static was
+ * renamed): those .c files are compiled separately and only the headers are used.  The same L1 part is printed and
+ * no L2 part (the `| n=` of `end` is the harness's own request counter and stays).  Differences:
+ *  - "is a reader / writer registered on this descriptor" (the `skip` guard of the start ops) is answered from the
+ *    harness's own account of the objects it started (which descriptor, which direction; a netbuf writer has a
+ *    write in flight once a consume/write of queued data returned 0) instead of the registration table;
+ *  - registrations left behind after every object was released cannot be enumerated and cancelled: `leaked=0` is
+ *    printed; such a registration keeps its record allocated, so it still shows as `live=` > 0 in the same line;
+ *  - the library's exit handlers run once, in reverse order of registration; pools and `minq` are not put back to
+ *    their load-time state, so every case gets its own process (bb_fresh).
  */
 #include <sys/socket.h>
 #include <sys/un.h>
@@ -27,6 +38,11 @@
 #include "hcommon.h"
 #include "hwrap.h"
 
+#ifdef HC_BLACKBOX
+#include <errno.h>
+
+#include "events.h"
+#else
 #include "elasticarray.c"
 #include "ptrheap.c"
 #include "events.c"
@@ -43,6 +59,7 @@
 #include "network_write.c"
 #undef docallback
 #undef callback_buf
+#endif
 
 #include "aws_sign.h"
 #include "http.h"
@@ -59,6 +76,23 @@ __wrap_poll(struct pollfd * p, nfds_t n, int timeout)
 {
 
 	return (__real_poll(p, n, (timeout < 0 || timeout > 1) ? 1 : timeout));
+}
+
+/*
+ * strdup() made by library code (https_request's copy of the host name, aws_sign, sock_addr_prettyprint) is an
+ * allocation like any other: counted, failed and tracked through malloc (link with --wrap=strdup; inside libc / ASan
+ * it would bypass the wrappers).
+ */
+char * __wrap_strdup(const char *);
+char *
+__wrap_strdup(const char * s)
+{
+	size_t n = strlen(s) + 1;
+	char * p = malloc(n);
+
+	if (p != NULL)
+		memcpy(p, s, n);
+	return (p);
 }
 
 /* time(): fixed, so that a reference run of aws_sign_* and the run under faults produce the same strings */
@@ -391,6 +425,42 @@ mk_sas(const char * pat)
 	return (sas);
 }
 
+#ifdef HC_BLACKBOX
+/* the harness's own account: descriptors of the started network_read / network_write / network_accept objects,
+ * length of the outstanding netbuf reader wait, netbuf writers with queued data / a write in flight */
+static int h_rd_fd[MAXOBJ], h_wr_fd[MAXOBJ], h_acc_fd[MAXOBJ];
+static size_t h_nbr_len[MAXOBJ];
+static int h_nbw_pending[MAXOBJ], h_nbw_inflight[MAXOBJ];
+
+static int
+slot_busy(int fd, int w)
+{
+	int h;
+
+	for (h = 0; h < MAXOBJ; h++) {
+		if (w) {
+			if (h_wr[h] != NULL && h_wr_fd[h] == fd)
+				return (1);
+			if (h_nbw[h] != NULL && h_nbw_inflight[h] && h_nbw_fd[h] == fd)
+				return (1);
+		} else {
+			if (h_rd[h] != NULL && h_rd_fd[h] == fd)
+				return (1);
+			if (h_acc[h] != NULL && h_acc_fd[h] == fd)
+				return (1);
+			if (h_nbr[h] != NULL && h_nbr_busy[h] && h_nbr_len[h] > 0 && h_nbr_fd[h] == fd)
+				return (1);
+		}
+	}
+	return (0);
+}
+
+#define fine_l2()	((void)0)
+#define force_clean()	(0)
+#define BB(stmt)	do { stmt; } while (0)
+#else
+#define BB(stmt)	((void)0)
+
 static int
 slot_busy(int fd, int w)
 {
@@ -443,6 +513,7 @@ pool_reset(struct mpool * M, void ** st, size_t size)
 	M->nallocs = M->nempties = 0;
 	M->state = 0;
 }
+#endif
 
 static void
 conn_cancel(int h)
@@ -462,6 +533,7 @@ http_cancel(int h)
 	sock_addr_freelist(h_http_sas[h]);
 }
 
+#ifndef HC_BLACKBOX
 struct tqrec_mirror { struct timeval tv; size_t rc; void * ptr; };
 
 /*
@@ -498,6 +570,7 @@ force_clean(void)
 	}
 	return (n);
 }
+#endif
 
 /*
  * Release every object of the start/teardown ops with its normal call (fixed order: the model does the
@@ -542,10 +615,16 @@ release_all(void)
 			LIB(netbuf_write_free(h_nbw[h]));
 			h_nbw[h] = NULL;
 			h_nbw_reserved[h] = 0;
+			BB(h_nbw_pending[h] = h_nbw_inflight[h] = 0);
 		}
 	drain_listener();
 	left = force_clean();
 	/* the library's own exit handlers: pools, events_timer_shutdown, events_network_shutdown */
+#ifdef HC_BLACKBOX
+	/* each handler runs once, as at exit (a pool does not register its handler a second time) */
+	while (nhandlers > 0)
+		LIB((handlers[--nhandlers])());
+#else
 	for (h = nhandlers - 1; h >= 0; h--)
 		LIB((handlers[h])());
 	pool_reset(&mpool_eventrec_rec, mpool_eventrec_static, 4096);
@@ -553,6 +632,7 @@ release_all(void)
 	pool_reset(&mpool_network_read_cookie_rec, mpool_network_read_cookie_static, 16);
 	pool_reset(&mpool_network_write_cookie_rec, mpool_network_write_cookie_static, 16);
 	minq = 32;
+#endif
 	return (left);
 }
 
@@ -594,6 +674,7 @@ fine_op(void)
 			LIB(tab[h] = network_write(fd, iobuf, sizeof(iobuf), 1, cb_never_ssize, NULL));
 		else
 			LIB(tab[h] = network_accept(fd, cb_never_int, NULL));
+		BB((hc_tok[0][1] == 'r' ? h_rd_fd : isw ? h_wr_fd : h_acc_fd)[h] = fd);
 		if (tab[h] == NULL)
 			failed = 1;
 	} else if (hc_is("nr_cancel", 1) || hc_is("nw_cancel", 1) || hc_is("na_cancel", 1)) {
@@ -661,6 +742,7 @@ fine_op(void)
 			return (1);
 		}
 		LIB(rc = netbuf_read_wait(h_nbr[h], len, cb_never_int, NULL));
+		BB(h_nbr_len[h] = len);
 		if (rc)
 			failed = 1;
 		else
@@ -690,6 +772,7 @@ fine_op(void)
 		LIB(h_nbw[h] = netbuf_write_init(fd, cb_never, NULL));
 		h_nbw_fd[h] = fd;
 		h_nbw_reserved[h] = 0;
+		BB(h_nbw_pending[h] = h_nbw_inflight[h] = 0);
 		if (h_nbw[h] == NULL)
 			failed = 1;
 	} else if (hc_is("nbw_reserve", 2)) {
@@ -713,13 +796,19 @@ fine_op(void)
 		/* both may start a network_write on the writer's descriptor, unless one is in progress */
 		size_t len = strtoull(hc_tok[2], NULL, 10);
 		int isc = hc_tok[0][4] == 'c', rc;
+#ifdef HC_BLACKBOX
+		void * wv;
+#define NBW_IDLE(h)	(!h_nbw_inflight[h])
+#else
 		struct { int s; void * ssl; int reserved; int failed; int (* fc)(void *); void * fck;
 		    struct { void * first; void ** last; } buffers; void * write_cookie; void * curr; } * wv;
+#define NBW_IDLE(h)	(wv->write_cookie == NULL)
+#endif
 
 		h = objidx(hc_tok[1]);
 		wv = (h >= 0) ? (void *)h_nbw[h] : NULL;
 		if (wv == NULL || (isc ? (!h_nbw_reserved[h] || len > h_nbw_resv[h]) : h_nbw_reserved[h]) ||
-		    (wv->write_cookie == NULL && slot_busy(h_nbw_fd[h], 1))) {
+		    (NBW_IDLE(h) && slot_busy(h_nbw_fd[h], 1))) {
 			printf("skip");
 			return (1);
 		}
@@ -733,6 +822,17 @@ fine_op(void)
 			LIB(rc = netbuf_write_write(h_nbw[h], data, len));
 			free(data);
 		}
+#ifdef HC_BLACKBOX
+		/* queued data starts a network_write unless one is in flight; a consume that reports failure has queued
+		 * its bytes all the same (only the start of the write failed) */
+		if (rc == 0) {
+			if (!h_nbw_inflight[h] && (h_nbw_pending[h] || len > 0)) {
+				h_nbw_inflight[h] = 1;
+				h_nbw_pending[h] = 0;
+			}
+		} else if (isc && len > 0)
+			h_nbw_pending[h] = 1;
+#endif
 		if (rc)
 			failed = 1;
 	} else if (hc_is("nbw_free", 1)) {
@@ -744,15 +844,24 @@ fine_op(void)
 		LIB(netbuf_write_free(h_nbw[h]));
 		h_nbw[h] = NULL;
 		h_nbw_reserved[h] = 0;
-	} else if (hc_is("hq_start", 3)) {
-		/* hq_start <h> <pattern> <pathlen>: GET /ppp… with two headers */
+		BB(h_nbw_pending[h] = h_nbw_inflight[h] = 0);
+	} else if (hc_is("hq_start", 3) || hc_is("hqs_start", 4)) {
+		/*
+		 * hq_start <h> <pattern> <pathlen>: GET /ppp… with two headers.
+		 * hqs_start <h> <pattern> <pathlen> <hostlen>: the same through https_request() with a host name of
+		 * <hostlen> characters (the caller's copy is an exact-size block, freed right after the call: the
+		 * library must have duplicated it).  No event-loop pass, so no TLS traffic: the request stays in
+		 * "connecting" until it is cancelled with hq_cancel.
+		 */
 		static struct http_header hdrs[2] = { { "Host", "x" }, { "Connection", "close" } };
 		static char path[300];
 		struct http_request req;
 		size_t pl = strtoull(hc_tok[3], NULL, 10);
+		int isssl = hc_tok[0][2] == 's';
+		size_t hl = isssl ? strtoull(hc_tok[4], NULL, 10) : 0;
 
 		h = objidx(hc_tok[1]);
-		if (h < 0 || h_http[h] != NULL || strlen(hc_tok[2]) > 8 || pl > 256) {
+		if (h < 0 || h_http[h] != NULL || strlen(hc_tok[2]) > 8 || pl > 256 || hl > 256) {
 			printf("skip");
 			return (1);
 		}
@@ -762,7 +871,15 @@ fine_op(void)
 		req.method = "GET"; req.path = path; req.nheaders = 2; req.headers = hdrs;
 		req.bodylen = 0; req.body = NULL;
 		h_http_sas[h] = mk_sas(hc_tok[2]);
-		LIB(h_http[h] = http_request(h_http_sas[h], &req, 1000, cb_never_http, NULL));
+		if (isssl) {
+			char * host = malloc(hl + 1);
+
+			memset(host, 'h', hl);
+			host[hl] = '\0';
+			LIB(h_http[h] = https_request(h_http_sas[h], &req, 1000, cb_never_http, NULL, host));
+			free(host);
+		} else
+			LIB(h_http[h] = http_request(h_http_sas[h], &req, 1000, cb_never_http, NULL));
 		if (h_http[h] == NULL) {
 			failed = 1;
 			sock_addr_freelist(h_http_sas[h]);
